@@ -87,6 +87,7 @@ structure Out where
   sess : Option (Bool × Sess) := none  -- the request's session after the call: (is it the cached object?, fields)
   cookies : List Ev := []
   rng : Option Nat := none
+  faulted : Nat := 0                   -- persistence calls of this operation that failed
   frozen : Option (Option Nat) := none -- some (some k): crashinside k happened; some none: "nocrash"
   bg : List Ev := []
   dump : Bool := false
@@ -145,19 +146,27 @@ def applyMut (st : List (ID × Rec)) : Ev → List (ID × Rec)
   | .del id => erase id st
   | _ => st
 
+def isFailEv : Ev → Bool
+  | .loadFail _ => true
+  | .saveFail _ => true
+  | .delFail _ => true
+  | .usersFail _ => true
+  | .userFail _ => true
+  | _ => false
+
 def isMut : Ev → Bool
   | .save _ _ => true
   | .del _ => true
   | _ => false
 
-def crashState (s : State) : State := { s with cache := [], timers := [], fails := [] }
+def crashState (s : State) : State := { s with cache := [], timers := [], fails := [], picks := [] }
 
 /-- One API call: run it with the oracles, split events, tick, and apply an armed `crashinside`. -/
 def apiCall (w : World) (orc : Orc) (run : State → State × RetV × Option String × List Ev) (showSess : Bool) :
     World × Out :=
   let pre := w.st
-  let (s1, ret, msg, evs) := run { w.st with fails := orc.fails }
-  let s1 := { s1 with fails := [] }
+  let (s1, ret, msg, evs) := run { w.st with fails := orc.fails, picks := orc.picks }
+  let s1 := { s1 with fails := [], picks := [] }
   let pers := evs.filter (fun e => !isCookie e)
   let cks := evs.filter isCookie
   let muts := pers.filter isMut
@@ -174,7 +183,7 @@ def apiCall (w : World) (orc : Orc) (run : State → State × RetV × Option Str
                      crashed := w.crashed || crashed, skip := w.skip || (crashed && w.inReq) }
   let sessOut := if showSess then w.cur.map (fun h => (lookup (s1.obj h).id s1.cache == some h, s1.obj h)) else none
   (w', { t := pre.now, evs := pers, ret := some ret, msg := msg, sess := sessOut, cookies := cks,
-         rng := some rng, frozen := frozen, bg := bg, dump := true })
+         rng := some rng, faulted := (pers.filter isFailEv).length, frozen := frozen, bg := bg, dump := true })
 
 def resStr : Res → RetV × Option String
   | .nil => (.str "nil", none)
@@ -219,13 +228,13 @@ def World.step (le : ID → ID → Bool) (w : World) (orc : Orc) (op : Op) : Wor
       | some rec => if expired w.cfg w.st.now (dec w.st.ver id rec) then "b1" else "b0"
     finish w { t := t, ret := some (.str r) }
   | .purge =>
-    let (w', o) := apiCall w orc (fun s => let (s', e) := purge w.cfg orc.picks s; (s', .str "ok", none, e)) false
+    let (w', o) := apiCall w orc (fun s => let (s', e) := purge w.cfg s; (s', .str "ok", none, e)) false
     finish w' o
   | .logoutUser uid =>
-    let (w', o) := apiCall w orc (fun s => let (s', ok, e) := logoutUser w.cfg orc.picks le s uid; (s', boolStr ok, none, e)) false
+    let (w', o) := apiCall w orc (fun s => let (s', ok, e) := logoutUser w.cfg le s uid; (s', boolStr ok, none, e)) false
     finish w' o
   | .refresh uid =>
-    let (w', o) := apiCall w orc (fun s => let (s', ok, e) := refreshUser w.cfg orc.picks le s uid; (s', boolStr ok, none, e)) false
+    let (w', o) := apiCall w orc (fun s => let (s', ok, e) := refreshUser w.cfg le s uid; (s', boolStr ok, none, e)) false
     finish w' o
   | .req client spec ip ua create =>
     let presented : Option (ID × Nat) :=
@@ -235,9 +244,9 @@ def World.step (le : ID → ID → Bool) (w : World) (orc : Orc) (op : Op) : Wor
       | .val id len => some (id, len)
     let r : Req := { cookie := presented.map (·.1), cookieLen := (presented.map (·.2)).getD 0, ip := ip, ua := ua, create := create }
     let w0 := { w with inReq := true, client := client, cur := none, hasCookie := presented.isSome, respCookies := [] }
-    let res := (start w.cfg orc.picks { w.st with fails := orc.fails } r).2.1
+    let res := (start w.cfg { w.st with fails := orc.fails, picks := orc.picks } r).2.1
     let w1 := { w0 with cur := match res with | .sess h => some h | _ => none }
-    let (w2, o) := apiCall w1 orc (fun s => let (s1, res, evs) := start w.cfg orc.picks s r; (s1, (resStr res).1, (resStr res).2, evs)) true
+    let (w2, o) := apiCall w1 orc (fun s => let (s1, res, evs) := start w.cfg s r; (s1, (resStr res).1, (resStr res).2, evs)) true
     (w2, { o with input := some (presented.map (·.1)) })
   | .endReq =>
     let jar := if w.skip then lookup w.client w.jars else applyCookies w.ck (lookup w.client w.jars) w.respCookies
@@ -255,9 +264,9 @@ def World.step (le : ID → ID → Bool) (w : World) (orc : Orc) (op : Op) : Wor
         | .del k => let (s', r, e) := hdel w.cfg s h k; (s', hresStr r, none, e)
         | .get k => (s, hresStr (hget s h k), none, [])
         | .getdel k => let (s', r, e) := hgetdel w.cfg s h k; (s', hresStr r, none, e)
-        | .login uid excl => let (s', r, e) := hlogin w.cfg orc.picks le s h uid excl; (s', hresStr r, none, e)
+        | .login uid excl => let (s', r, e) := hlogin w.cfg le s h uid excl; (s', hresStr r, none, e)
         | .logout => let (s', r, e) := hlogout w.cfg s h; (s', hresStr r, none, e)
-        | .regen => let (s', ok, e) := regenerate w.cfg orc.picks s h; (s', boolStr ok, none, e)
+        | .regen => let (s', ok, e) := regenerate w.cfg s h; (s', boolStr ok, none, e)
         | .destroy => let (s', ok, e) := destroy s h w.hasCookie; (s', boolStr ok, none, e)
         | .expired => (s, hresStr (.bool (expired w.cfg s.now (s.obj h))), none, [])
         | .lastaccess => (s, .time (s.obj h).lastAccess, none, [])
